@@ -19,6 +19,7 @@ type Ctx struct {
 	api  []APIMethod
 	ronly int64
 	nilA  *nilAnalysis
+	typImm int
 }
 
 func newCtx(p *Program, prop, tier string) *Ctx {
@@ -195,3 +196,5 @@ func hasPrefixAny(s string, ps ...string) bool {
 
 var _ = token.ADD
 var _ = types.Typ
+
+func stringType() types.Type { return types.Typ[types.String] }
